@@ -9,6 +9,21 @@ Lemma cat_idx3_tie : gen_cat_idx3 = [1; 3; 5]%nat. Proof. reflexivity. Qed.
 Lemma mw_pad_idx_tie : gen_mw_pad_idx = [1; 3]%nat. Proof. reflexivity. Qed.
 Lemma dub_pad_idx_tie : gen_dub_pad_idx = [1; 3]%nat. Proof. reflexivity. Qed.
 
+(* the layer sequence regenerated from the constructor and the two loops of forward is the modelled program *)
+Lemma rep_app {A} a b (l : list A) : rep (a + b) l = rep a l ++ rep b l.
+Proof. induction a as [|a IH]; cbn [rep Nat.add]; [reflexivity|]. rewrite IH, app_assoc. reflexivity. Qed.
+
+Lemma unet2d_layers_tie L : gen_unet2d_layers L = unet_prog [1; 3]%nat L.
+Proof.
+  unfold gen_unet2d_layers, unet_prog, unet_down, unet_up, convblock, same3, one1. rewrite cat_idx2_tie.
+  rewrite (rep_app 1 (L - 1)), (rep_app (L - 1) 1). cbn [rep app]. rewrite ?app_nil_r, <- ?app_assoc. cbn [app]. reflexivity.
+Qed.
+Lemma unet3d_layers_tie L : gen_unet3d_layers L = unet_prog [1; 3; 5]%nat L.
+Proof.
+  unfold gen_unet3d_layers, unet_prog, unet_down, unet_up, convblock, same3, one1. rewrite cat_idx3_tie.
+  rewrite (rep_app 1 (L - 1)), (rep_app (L - 1) 1). cbn [rep app]. rewrite ?app_nil_r, <- ?app_assoc. cbn [app]. reflexivity.
+Qed.
+
 (* crop_to_shape keeps min(c, r) *)
 Lemma crop_spec c r : 0 <= r -> (if c >? r then slice_len c 0 r else c) = crop_to c r.
 Proof. intros H. unfold crop_to, slice_len, norm_idx. repeat case_if; lia. Qed.
@@ -44,11 +59,11 @@ Proof. intros Hk Hn. unfold slice_len, norm_idx, gen_p2_start, gen_p2_stop, gen_
 
 (* ---- the shape theorems over the regenerated pieces ---- *)
 Lemma unet2d_gen L h w : 2 ^ Z.of_nat (Nat.max L 1) <= h -> 2 ^ Z.of_nat (Nat.max L 1) <= w -> out_dims (gen_unet2d L) [w; h] = Some [w; h].
-Proof. unfold gen_unet2d. rewrite cat_idx2_tie. apply unet2d_shape. Qed.
+Proof. unfold gen_unet2d. rewrite unet2d_layers_tie. apply unet2d_shape. Qed.
 
 Lemma normunet2d_gen L h w : (L <= 4)%nat -> 1 <= h -> 1 <= w -> out_dims (gen_normunet2d L) [w; h] = Some [w; h].
 Proof.
-  intros HL Hh Hw. unfold gen_normunet2d. rewrite cat_idx2_tie.
+  intros HL Hh Hw. unfold gen_normunet2d. rewrite unet2d_layers_tie.
   apply (padded_unet2d gen_nu_lo gen_nu_hi gen_nu_start gen_nu_stop nu_mult gen_nu_total gen_nu_back); try assumption.
   intros n Hn. pose proof (nu_mult_ge16 n Hn). assert (2 ^ Z.of_nat (Nat.max L 1) <= 16); [|lia].
   change 16 with (2 ^ Z.of_nat 4). apply Z.pow_le_mono_r; lia.
@@ -62,7 +77,7 @@ Proof. unfold gen_didn. rewrite dub_pad_idx_tie. apply didn2d_shape. Qed.
 
 Lemma unet3d_gen L z h w : (1 <= L)%nat -> 1 <= z -> 1 <= h -> 1 <= w -> out_dims (gen_unet3d L) [w; h; z] = Some [w; h; z].
 Proof.
-  intros HL Hz Hh Hw. unfold gen_unet3d. rewrite cat_idx3_tie.
+  intros HL Hz Hh Hw. unfold gen_unet3d. rewrite unet3d_layers_tie.
   apply (padded_unet3d _ _ _ _ (fun n => Z.max n (2 ^ Z.of_nat L))); try assumption.
   - intros n Hn. apply gen_p2_total; lia.
   - intros n Hn. apply gen_p2_back; lia.
@@ -83,7 +98,7 @@ Qed.
 
 Lemma normunet3d_gen L z h w : (1 <= L <= 4)%nat -> 1 <= z -> 1 <= h -> 1 <= w -> out_dims (gen_normunet3d L) [w; h; z] = Some [w; h; z].
 Proof.
-  intros HL Hz Hh Hw. unfold gen_normunet3d, gen_unet3d. rewrite cat_idx3_tie. unfold out_dims, start. cbn [map].
+  intros HL Hz Hh Hw. unfold gen_normunet3d, gen_unet3d. rewrite unet3d_layers_tie. unfold out_dims, start. cbn [map].
   rewrite run_decomp3 by (apply canon_padded, canon_padded, (canon_unet 3)).
   rewrite !normunet3d_axis by assumption. reflexivity.
 Qed.
